@@ -456,6 +456,53 @@ def replay_ksa_md_small_molecule(model):
     return {"reproduced": bool(bad), "Etot_after_4_steps": out}
 
 
+def replay_xlesmd_exhausted_row(model):
+    """real compute_dxi2dt2_rankm (excited-state XL-BOMD kernel): two rows, one whose amplitude space is one-dimensional (zero
+    padded to the common length) next to a generic one; max_rank 2 and 3 must return finite updates, and the exhausted row's must
+    equal its rank-1 update."""
+    import io, contextlib
+    import torch
+    from seqm.seqm_functions.XLESMD import compute_dxi2dt2_rankm
+
+    torch.set_default_dtype(torch.float64)
+    torch.manual_seed(0)
+    n = 4
+    A0 = torch.randn(n, n)
+    A0 = 0.3 * (A0 + A0.T) + 2 * torch.eye(n)
+    A1 = torch.zeros(n, n)
+    A1[0, 0] = 1.7
+
+    def jvp(v):
+        out = torch.empty_like(v)
+        out[0, 0] = A0 @ v[0, 0]
+        out[1, 0] = A1 @ v[1, 0]
+        return out
+
+    xi, eta = torch.zeros(2, 1, n), torch.zeros(2, 1, n)
+    xi[0, 0], eta[0, 0] = torch.randn(n), torch.randn(n)
+    xi[1, 0, 0], eta[1, 0, 0] = 0.4, 0.1
+    out = {}
+    for rank in (1, 2, 3):
+        try:
+            with contextlib.redirect_stdout(io.StringIO()):
+                r = compute_dxi2dt2_rankm(eta, xi, jvp, {"max_rank": rank, "err_threshold": 0.0}, lambda v: v)
+            out[rank] = r[1, 0].tolist()
+        except Exception as exc:  # noqa
+            out[rank] = "raised %s: %s" % (type(exc).__name__, str(exc)[:100])
+    bad = any(isinstance(v, str) for v in out.values()) or any(abs(out[k][0] - out[1][0]) > 1e-9 for k in (2, 3) if not isinstance(out[k], str))
+    return {"reproduced": bool(bad), "update_of_the_exhausted_row_by_max_rank": out}
+
+
+def task_ksa_subspace_solve_excited(ctx):
+    """the third copy of the Krylov kernel (seqm_functions/XLESMD.py compute_dxi2dt2_rankm, excited-state XL-BOMD, amplitude
+    vectors): same contract -- total and a projection for linearly dependent response vectors (a row whose amplitude space has
+    fewer dimensions than the batch-wide rank reached: a small molecule, or a state confined to a low-dimensional symmetry block)."""
+    import seqm.seqm_functions.XLESMD as X
+    from contracts.C03_scf import ksa_subspace_contract
+
+    ksa_subspace_contract(ctx, "seqm.seqm_functions.XLESMD:compute_dxi2dt2_rankm", X.compute_dxi2dt2_rankm, replay_xlesmd_exhausted_row, "ksa_es_subspace", vectors=True)
+
+
 def task_fermi_occupations(ctx):
     """Krylov-subspace / finite-temperature variant: the density EnergyXL.forward builds from F(P) is Fermi_Q's; its chemical
     potential is updated by the Newton step TOWARDS the root of sum_i f_i(mu) = N over the molecule's physical orbitals, the
@@ -476,5 +523,5 @@ def task_ksa_subspace_solve(ctx):
     ksa_subspace_contract(ctx, "seqm.dynamics.xlbomd:EnergyXL.forward", XL.EnergyXL.forward, replay_ksa_md_small_molecule, "ksa_md_subspace")
 
 
-TASKS_QUICK = ["table", "fixed_point", "history", "stability", "shadow_energy", "ksa_subspace_solve", "fermi_occupations"]
+TASKS_QUICK = ["table", "fixed_point", "history", "stability", "shadow_energy", "ksa_subspace_solve", "ksa_subspace_solve_excited", "fermi_occupations"]
 TASKS_THOROUGH = TASKS_QUICK
